@@ -5,7 +5,7 @@ get_build(variant) -> directory holding `isa-l_crypto.a`, `objs/` (extracted obj
 (a copy of the tracked+modified sources used for the build, kept for the translators).
 
 Variants: "default" (SAFE_DATA+SAFE_PARAM), "fips" (FIPS_MODE=y), "hook" (D=ISAL_CRYPTO_VERIF),
-"fipshook" (both).
+"fipshook" (both), "fipsnoarch" (FIPS_MODE=y arch=noarch: portable C only; C17 generic gate).
 
 Builds are cached under a scratch cache directory outside /repo and /verif, keyed by the sha256 of
 the source tree contents + variant, so a cache hit is bit-for-bit what a rebuild would produce and
@@ -62,6 +62,8 @@ VARIANTS = {
     "fips": ["FIPS_MODE=y"],
     "hook": ["D=ISAL_CRYPTO_VERIF"],
     "fipshook": ["FIPS_MODE=y", "D=ISAL_CRYPTO_VERIF"],
+    # portable C only (no assembly, no AES): the configuration that compiles fips/self_tests_generic.c
+    "fipsnoarch": ["FIPS_MODE=y", "arch=noarch"],
 }
 
 
